@@ -51,6 +51,12 @@ static void check_case(int d, const std::vector<double>& E, double t, const Alph
       { SU_vector r = SU_vector(A).Evolve(H, t); got.push_back({"SU_vector(A).Evolve(H,t) [construct]", comps(r)}); }
       { SU_vector r; r = SU_vector(A + A).Evolve(buf.data()); std::vector<double> g = comps(r); for (auto& x : g) x *= 0.5; got.push_back({"SU_vector(A+A).Evolve(buf)/2", g}); }
       { std::vector<double> zb(d * (d - 1)); H.PrepareEvolve(zb.data(), 0.0); SU_vector r = SU_vector(A.Evolve(zb.data())).Evolve(buf.data()); got.push_back({"SU_vector(A.Evolve(buf0)).Evolve(buf) [chained]", comps(r)}); }
+      // the evolved vector (or the operator) is a second object viewing the storage the target owns
+      { SU_vector rho = A; SU_vector view((unsigned)d, &rho[0]); rho = view.Evolve(H, t); got.push_back({"owner = view_of_owner.Evolve(H,t)", comps(rho)}); }
+      { SU_vector rho = A; SU_vector view((unsigned)d, &rho[0]); rho = view.Evolve(buf.data()); got.push_back({"owner = view_of_owner.Evolve(buf)", comps(rho)}); }
+      { SU_vector rho = A; SU_vector view((unsigned)d, &rho[0]); view = rho.Evolve(H, t); got.push_back({"view_of_owner = owner.Evolve(H,t)", comps(rho)}); }
+      { SU_vector rho = A; SU_vector view((unsigned)d, &rho[0]); rho += view.Evolve(buf.data()); std::vector<double> g = comps(rho); for (int k = 0; k < d * d; k++) g[k] -= a[k]; got.push_back({"owner += view_of_owner.Evolve(buf) (minus owner)", g}); }
+      { SU_vector h = H; SU_vector hview((unsigned)d, &h[0]); SU_vector keep = H; h = A.Evolve(hview, t); got.push_back({"h = A.Evolve(view_of_h,t)", comps(h)}); }
       for (auto& g : got) { count("evaluations"); double e = maxdiff(g.second, want); if (!(e <= 2 * tol)) violation(std::string("Evolve:temporary-operand:d=") + std::to_string(d), J().str("form", g.first).i("d", d).arr("spectrum", E).num("t", t).arr("A", a).arr("got", g.second).arr("want", want).num("err", e).done()); }
     }
     if (ai + 3 >= al.vecs.size() || ai == 0) {   // probes and the identity: the result consumed by += / -= into an unrelated vector
